@@ -71,6 +71,13 @@ func vValue() ([]byte, []byte) {
 			rt.Assume(b < 0x80)
 		}
 	}
+	// optional concrete continuation of the value: what is tokenized after the symbolic part
+	switch rt.Param("TAIL") {
+	case 1:
+		v = append(v, " zz"...)
+	case 2:
+		v = append(v, "/zz"...)
+	}
 	return v, append([]byte(nil), v...) // the tokenizers lower-case in place: keep the original
 }
 
